@@ -133,3 +133,8 @@ chk("C29", "E1 program explorer with recording sources and recording user functi
     "Every depth<=2 program over recording array-like sources (several from_array option sets) and recording user functions (map_blocks with/without dtype, map_overlap, blockwise, reduction) is built and then put through 27 accessors (shape ... repr, _repr_html_, transfer_bytes, pprint, simplify, optimize, __dask_graph__, explain, chunk_report, to_delayed, frisky keys); after each step the logs must show no non-empty __getitem__, no __array__ and no user-function call on real data; a final compute must register reads.",
     "Trusted: one-element probes holding 0/1/NaN are dask's fake data for dtype/meta inference, not user data (sources hold values >= 10).",
     "DESIGN.md §4 C29")
+chk("C26", "E5 import-state explorer (fork snapshots)",
+    "breadth-first explicit-state search over import/registration events from a pristine interpreter, each transition executed in a forked child of the process holding the parent state; invariant evaluated in every reached state",
+    "States (set of loaded dask_array modules, xarray loaded, private module loaded, register() in history) are expanded once: the history is replayed in a fresh interpreter and every event (import of the package / each of the ~155 submodules / xarray, register(), isactive(), import of the private module) runs in a forked child that then probes xarray's chunk manager: built-in unless register() occurred, ours and isactive() afterwards, isactive() never imports the private module; states without xarray get a closing 'import xarray' probe. Second half: ~1600 depth<=2 xarray programs on registered dask_array-backed objects equal the NumPy-backed results.",
+    "Trusted: a module body runs once (futures depend on the set of bodies run); quick expands level 2 over core events only, thorough over all events to depth 3.",
+    "DESIGN.md §4 C26")
